@@ -10838,6 +10838,16 @@ int cgi_array_general_write(
         }
     }
 
+     /* the copy of the data that cgi_read_array loaded when the file was
+        opened is what cg_array_read answers from: keep it current */
+    if (have_dup && array->data) {
+        if (cgio_read_all_data_type(cg->cgio, array->id, array->data_type,
+                                    array->data)) {
+            cg_io_error("cgio_read_all_data_type");
+            return CG_ERROR;
+        }
+    }
+
     return CG_OK;
 }
 
